@@ -7,9 +7,12 @@ cd "$(dirname "$0")/.."
 src=/tmp/mut/$prop/MUTANT$k
 [ -d seeded/$prop-$k ] && src=seeded/$prop-$k
 patch=$(readlink -f $src/patch.diff); demo=$(readlink -f $src/demo.py)
+# a seeded change whose lines were later rewritten by a fix: commit is evaluated on the tree it was written for
+pin=$(/venv/bin/python -c "import json,sys; print(json.load(open(sys.argv[1])).get('pin_commit',''))" $src/meta.json 2>/dev/null)
+[ -n "$pin" ] && export MUT_BASE=$pin
 mkdir -p /tmp/mut
 W=$(mktemp -d /tmp/mut/conf.XXXXXX); rmdir $W
-git -C /repo worktree add -q --detach $W HEAD || exit 3
+git -C /repo worktree add -q --detach $W ${MUT_BASE:-HEAD} || exit 3
 if ! git -C $W apply "$patch" 2>/dev/null; then
   echo "$prop-$k PATCH-DOES-NOT-APPLY"; git -C /repo worktree remove --force $W; exit 3
 fi
